@@ -70,6 +70,9 @@ type ChainExpect struct {
 	// TrailingUnconsumedOK: responses after the last one used need not be in the chain.
 	CheckExecLog bool
 	Execs        []world.ExecCall
+	// RootFn is the reference root function of the execution layer the node ran against (nil: world.RootAfter); it
+	// gets the height of the executed block, the root before it and its transactions.
+	RootFn func(height uint64, prevRoot []byte, txs [][]byte) []byte
 }
 
 // CheckChain verifies W1 on the store for all heights initial..Height() and returns the reference blocks.
@@ -139,6 +142,9 @@ func CheckChain(ctx context.Context, st store.Store, ex ChainExpect, hit func(st
 			add("app-hash", h, "AppHash %x != root after block %d %x", []byte(hdr.AppHash), h-1, prevRoot)
 		}
 		root := world.RootAfter(prevRoot, txs)
+		if ex.RootFn != nil {
+			root = ex.RootFn(h, prevRoot, txs)
+		}
 		// proposer / signature under the harness's key
 		hit("signature")
 		if !bytes.Equal(hdr.ProposerAddress, ex.Addr) {
